@@ -1,5 +1,6 @@
 /-
-C16g -- C16's `fill` / `load` theorems restated for the GENERATED `_fill`.
+C16g -- C16's theorems restated for the GENERATED code: `_fill` (first part) and the command front
+ends `do_fill / do_load / do_save / do_mem` (second part, from "the command front ends" on).
 
 `Py65.Gen.MonFillGen._fill` is regenerated from `/repo/py65/monitor.py` (`Monitor._fill`: the
 one-address extension with clipping at `addrMask`, the `while address <= end` loop with
@@ -17,6 +18,7 @@ parser of C15, the `value > byteMask` test) remains modelled (`MonFillGenEq.doFi
 -/
 import Py65.Props.C16
 import Py65.Proofs.MonFillGenEq
+import Py65.Proofs.MonMemGenEq
 
 namespace Py65.Props.C16g
 open Py65.Model.PyStr Py65.Model.AddrParser Py65.Model.ObsMem Py65.Model.MonMem Py65.Model.MonGenRt
@@ -227,5 +229,370 @@ example : wroteLine dev8 4 0x10 0x13 = "Wrote +4 bytes from $0010 to $0013".toLi
     simp [fmtHexInt, fmtHexL, rjustL, toDigits, digitChar]
   rw [h1, h2, h3]
   decide
+
+/-! ## the command front ends, generated (unit `memcmd`)
+
+`Py65.Gen.MonMemGen.do_fill / do_load / do_save / do_mem` are regenerated from `/repo/py65/monitor.py`
+by `harness/py2lean_monmem.py` on every run of the C16 check (they call the generated `_fill` above);
+`Py65/Proofs/MonMemGenEq.lean` proves them equal to the hand model `MonMem.doFill / doLoad / doSave /
+doMem` for all argument strings (`do_fill_eq`, `do_load_eq`, `do_save_eq`, `do_mem_eq`).  Below,
+`C16.fill_rejects / load_rejects / save_exact / save_load_roundtrip / mem_exact / mem_reads_cells`
+with the generated methods in place of the model's.
+
+`σ : MemSt` is what the commands can touch: the memory object, `self._mpu.pc`, `self._width`, the lines
+printed so far, the files written so far.  `w : World` is the OS and the parser's error texts.  A
+command gets its ARGUMENT STRING `args`; "the string splits into these tokens" is the hypothesis
+`MonCmd.shlexSplit args = some […]` (`shlex.split`, modelled).  `fuel` bounds the loop of the generated
+`_fill`; the results do not depend on it. -/
+
+open Py65.Model Py65.Model.MonMemRt Py65.Proofs.MonMemGenEq
+
+-- the observations of the examples below are nested options / products / lists: a larger instance term
+set_option synthInstance.maxSize 2048
+
+/-- The method ended -- normally or by an exception that `onecmd` then reports -- in state `σ'`. -/
+def EndsIn (r : MFlow MemSt Unit) (σ' : MemSt) : Prop := r = .ok () σ' ∨ ∃ x, r = .raise x σ'
+
+theorem EndsIn.of_ok {σ1 σ' : MemSt} (h : EndsIn (.ok () σ1) σ') : σ' = σ1 := by
+  rcases h with h | ⟨x, h⟩
+  · injection h with _ h; exact h.symm
+  · cases h
+
+theorem EndsIn.of_raise {x : PExc} {σ1 σ' : MemSt} (h : EndsIn (.raise x σ1) σ') : σ' = σ1 := by
+  rcases h with h | ⟨y, h⟩
+  · cases h
+  · injection h with _ h; exact h.symm
+
+theorem EndsIn.not_nofuel {σ' : MemSt} (h : EndsIn .nofuel σ') : False := by
+  rcases h with h | ⟨y, h⟩ <;> cases h
+
+/-- The world of the non-vacuity examples: one readable file `f.bin` (octets 1 2 3 4 5), every file
+writable, no network; the parser's exceptions carry the texts / numbers the real one does for the
+tokens used below. -/
+def w0 : World :=
+  { openR := fun n => if n = "f.bin".toList then .ok [1, 2, 3, 4, 5] else .error (2, "No such file or directory".toList),
+    openW := fun n => if n = "/nodir/x".toList then some (2, "No such file or directory".toList) else none,
+    urlopen := fun _ => .error "unreachable".toList,
+    keyText := fun t => "Label not found: ".toList ++ t,
+    ovfArg := fun _ => 0x10000 }
+
+/-- The monitor state of the examples on an 8-bit device: memory `cells`, PC 0, width 78. -/
+def σ8 (cells : Int → Int) : MemSt := { memory := monMem 16 cells, pc := 0, width := 78, out := [], files := [] }
+/-- … and on the 65Org16. -/
+def σ16 (cells : Int → Int) : MemSt := { memory := monMem 32 cells, pc := 0, width := 78, out := [], files := [] }
+
+def P8 : Parser := { width := 16, radix := 16, labels := [] }
+def P16 : Parser := { width := 32, radix := 16, labels := [] }
+
+/-- What the examples look at: the lines printed, the files written, and some cells afterwards. -/
+def observe (cells : List Int) : MFlow MemSt Unit → Option (List Str × List WFile × List Int)
+  | .ok _ s => some (s.out, s.files, cells.map s.memory.subject)
+  | _ => none
+
+/-- `fill_rejects` for the generated `do_fill`: (1) however the command ends, if the line it printed
+is not a "Wrote …" report then the memory object is EXACTLY as it was; (2) an address too wide for the
+device and (3) a value wider than a byte are both caught and printed as "Overflow: $…" -- the number
+the exception carries -- with the state otherwise untouched, before the first cell is written. -/
+theorem fill_rejects (w : World) (reply : Reply) (d : Dev) (P : Parser) (fuel : Nat) (σ : MemSt)
+    (hwf : P.WF) (hP : P.maxaddr = d.addrMask) (hfuel : (d.addrMask + 1).toNat < fuel) :
+    (∀ args σ', EndsIn (MonMemGen.do_fill w reply d P fuel args σ) σ' →
+      (∀ c s e, σ'.out ≠ σ.out ++ [wroteLine d c s e]) → σ'.memory = σ.memory) ∧
+    (∀ args r pieces, MonCmd.shlexSplit args = some (r :: pieces) → pieces ≠ [] → rangeL P r = .overflow →
+      MonMemGen.do_fill w reply d P fuel args σ =
+        .ok () { σ with out := σ.out ++ ["Overflow: $".toList ++ pyFmtX 0 (w.ovfArg r)] }) ∧
+    (∀ args r a b pre pdata p post v, MonCmd.shlexSplit args = some (r :: (pre ++ p :: post)) →
+      rangeL P r = .ok a b → PiecesOk d P pre pdata → numberL P p = .ok v → v > d.byteMask →
+      MonMemGen.do_fill w reply d P fuel args σ =
+        .ok () { σ with out := σ.out ++ ["Overflow: $".toList ++ pyFmtX 0 v] }) := by
+  obtain ⟨r1, r2, r3⟩ := C16.fill_rejects reply d P σ.memory
+  refine ⟨?_, ?_, ?_⟩
+  · intro args σ' hend hno
+    rw [do_fill_eq w reply d P fuel args σ hwf hP hfuel] at hend
+    cases hs : MonCmd.shlexSplit args with
+    | none =>
+      simp only [hs] at hend
+      rw [hend.of_raise]
+    | some split =>
+      simp only [hs] at hend
+      have hrej := r1 split
+      cases ho : doFill reply d P split σ.memory with
+      | mk o m' =>
+        rw [ho] at hend hrej
+        cases o with
+        | wrote c s e =>
+          simp only [fillEnd] at hend
+          have := hend.of_ok
+          subst this
+          exact absurd rfl (hno c s e)
+        | indexError =>
+          have hm : m' = σ.memory := hrej (fun c s e => by simp)
+          simp only [fillEnd] at hend
+          rw [hend.of_raise, hm]
+        | help =>
+          simp only [fillEnd] at hend
+          rw [hend.of_ok]
+        | syntaxError | key | overflow | other | saved _ _ | lines _ =>
+          simp only [fillEnd] at hend
+          cases hx : fillExc w d P split with
+          | none => rw [hx] at hend; exact absurd hend EndsIn.not_nofuel
+          | some x =>
+            rw [hx] at hend
+            cases x <;> simp only [fillCaught] at hend <;>
+              first | rw [hend.of_ok] | rw [hend.of_raise]
+  · intro args r pieces hs hne hr
+    rw [do_fill_eq w reply d P fuel args σ hwf hP hfuel, hs]
+    simp only [r2 r pieces hne hr, fillExc, hr, rresExc, fillEnd, fillCaught]
+  · intro args r a b pre pdata p post v hs hr hpre hp hv
+    rw [do_fill_eq w reply d P fuel args σ hwf hP hfuel, hs]
+    simp only [r3 r a b pre pdata p post v hr hpre hp hv, fillExc, hr, fillerExc_wide w d P pre pdata p post v hpre hp hv,
+      fillEnd, fillCaught]
+
+/-- non-vacuity, running the GENERATED `do_fill` (and through it the generated `_fill`): on the 6502
+`fill 10000:10003 aa` (address too wide) and `fill 0:3 100` (value too wide) print "Overflow: $…" and
+leave the cells alone; `fill 10:13 1 2` writes 1 2 1 2 and reports it; `fill 10` prints the usage;
+on the 65Org16 `fill 10000:10003 aa` is a fine range. -/
+example :
+    observe [0, 1, 2, 3] (MonMemGen.do_fill w0 monReply dev8 P8 100 "10000:10003 aa".toList (σ8 fun _ => 7)) =
+      some (["Overflow: $10000".toList], [], [7, 7, 7, 7]) ∧
+    observe [0, 1, 2, 3] (MonMemGen.do_fill w0 monReply dev8 P8 100 "0:3 100".toList (σ8 fun _ => 7)) =
+      some (["Overflow: $100".toList], [], [7, 7, 7, 7]) ∧
+    observe [0xf, 0x10, 0x11, 0x12, 0x13, 0x14] (MonMemGen.do_fill w0 monReply dev8 P8 100 "10:13 1 2".toList (σ8 fun _ => 0)) =
+      some (["Wrote +4 bytes from $0010 to $0013".toList], [], [0, 1, 2, 1, 2, 0]) ∧
+    (observe [] (MonMemGen.do_fill w0 monReply dev8 P8 100 "10".toList (σ8 fun _ => 0))).map (·.1.length) = some 5 ∧
+    observe [0xffff, 0x10000, 0x10003] (MonMemGen.do_fill w0 monReply dev16 P16 100 "10000:10003 aa".toList (σ16 fun _ => 7)) =
+      some (["Wrote +4 bytes from $00010000 to $00010003".toList], [], [7, 0xaa, 0xaa]) := by
+  decide +kernel
+
+/-- `load_rejects` for the generated `do_load`: (1) too many arguments: "Syntax error: …", decided
+before the file is even opened; (2) a start address the parser refuses (too wide, unknown label): its
+exception leaves the method; (3) a file that cannot be read: its error line.  In all three the state
+-- the memory object in particular -- is otherwise EXACTLY as it was. -/
+theorem load_rejects (w : World) (reply : Reply) (d : Dev) (P : Parser) (fuel : Nat) (σ : MemSt) (hBW : 8 ≤ d.BW) :
+    (∀ args name rest, MonCmd.shlexSplit args = some (name :: rest) → 2 ≤ rest.length →
+      MonMemGen.do_load w reply d P fuel args σ =
+        .ok () { σ with out := σ.out ++ ["Syntax error: ".toList ++ args] }) ∧
+    (∀ args name t file, MonCmd.shlexSplit args = some [name, t] → loadSource w name = .ok file →
+      t ≠ "top".toList → (∀ a, numberL P t ≠ .ok a) →
+      MonMemGen.do_load w reply d P fuel args σ = .raise (resExc w t (numberL P t)) σ) ∧
+    (∀ args name rest x, MonCmd.shlexSplit args = some (name :: rest) → rest.length ≤ 1 →
+      loadSource w name = .error x →
+      MonMemGen.do_load w reply d P fuel args σ = .ok () { σ with out := σ.out ++ [loadErrLine x] }) := by
+  refine ⟨?_, ?_, ?_⟩
+  · intro args name rest hs h2
+    rw [do_load_pre_eq w reply d P fuel args σ hBW, hs]
+    simp only [h2, if_true]
+  · intro args name t file hs hsrc htop hno
+    have ht' : ¬ t = ['t', 'o', 'p'] := by
+      have : "top".toList = ['t', 'o', 'p'] := by decide
+      rw [this] at htop; exact htop
+    have h2 : ¬ (2 ≤ ([t] : List Str).length) := by simp
+    rw [do_load_pre_eq w reply d P fuel args σ hBW, hs]
+    -- (`hno` discharges the side condition of `loadStart`'s catch-all equation)
+    simp only [h2, if_false, hsrc, loadStart, ht', List.headD_cons]
+  · intro args name rest x hs hrest hsrc
+    have h2 : ¬ (2 ≤ rest.length) := by omega
+    rw [do_load_pre_eq w reply d P fuel args σ hBW, hs]
+    simp only [h2, if_false, hsrc]
+
+/-- non-vacuity, running the GENERATED `do_load`: `load f.bin 10000` on the 6502 leaves with the
+parser's OverflowError (no output, cells as they were); `load f.bin 1 2` is a syntax error; `load
+nosuch.bin 10` prints the OS error; and the accepting runs: `load f.bin 10` stores the five octets,
+`load f.bin top` on the 65Org16 stores the two big-endian words in the last two cells (physical cells
+$3FFFE/$3FFFF) and drops the odd fifth octet. -/
+example :
+    (match MonMemGen.do_load w0 monReply dev8 P8 100 "f.bin 10000".toList (σ8 fun _ => 7) with
+     | .raise (.OverflowError _) s => some (s.out, [0x10, 0x11].map s.memory.subject)
+     | _ => none) = some ([], [7, 7]) ∧
+    observe [0x10] (MonMemGen.do_load w0 monReply dev8 P8 100 "f.bin 1 2".toList (σ8 fun _ => 7)) =
+      some (["Syntax error: f.bin 1 2".toList], [], [7]) ∧
+    observe [0x10] (MonMemGen.do_load w0 monReply dev8 P8 100 "nosuch.bin 10".toList (σ8 fun _ => 7)) =
+      some (["Cannot load file: [2] No such file or directory".toList], [], [7]) ∧
+    observe [0x10] (MonMemGen.do_load w0 monReply dev8 P8 100 "http://x/y 10".toList (σ8 fun _ => 7)) =
+      some (["Cannot fetch remote file: unreachable".toList], [], [7]) ∧
+    observe [0xf, 0x10, 0x11, 0x12, 0x13, 0x14, 0x15] (MonMemGen.do_load w0 monReply dev8 P8 100 "f.bin 10".toList (σ8 fun _ => 0)) =
+      some (["Wrote +5 bytes from $0010 to $0014".toList], [], [0, 1, 2, 3, 4, 5, 0]) ∧
+    observe [0x3fffd, 0x3fffe, 0x3ffff, 0] (MonMemGen.do_load w0 monReply dev16 P16 100 "f.bin top".toList (σ16 fun _ => 0)) =
+      some (["Wrote +2 bytes from $fffffffe to $ffffffff".toList], [], [0, 0x102, 0x304, 0]) := by
+  decide +kernel
+
+/-- `save_exact` for the generated `do_save`: `save <name> s e` with tokens spelling `a ≤ b` (any
+addresses of the device, also at and above the physical size of the 65Org16) and a file that can be
+opened for writing ends normally, has written ONE file -- exactly the values a read of `a, a+1, …, b`
+returns, in order, each as `BW/8` octets most significant first -- and printed "Saved +(b+1-a) bytes
+to <name>"; the cells themselves are untouched; where no read subscriber sits in the range those
+values are the physical cells of the addresses and the memory object is unchanged altogether.  If
+`open` fails, "Cannot save file: [errno] strerror" is printed instead and no file appears. -/
+theorem save_exact (w : World) (reply : Reply) (d : Dev) (P : Parser) (σ : MemSt) (args name s e : Str) (a b : Int)
+    (hsp : MonCmd.shlexSplit args = some [name, s, e])
+    (hs : numberL P s = .ok a) (he : numberL P e = .ok b) (hab : a ≤ b) :
+    let rd := getMany reply (addrRange a b) σ.memory
+    (w.openW name = none →
+      MonMemGen.do_save w reply d P args σ =
+        .ok () { σ with memory := rd.2, files := σ.files ++ [(name, rd.1.flatMap (octets d))],
+                        out := σ.out ++ [savedLine rd.1.length name] }) ∧
+    (∀ err, w.openW name = some err →
+      MonMemGen.do_save w reply d P args σ =
+        .ok () { σ with memory := rd.2, out := σ.out ++ [cannotSave err] }) ∧
+    (rd.1.length : Int) = b + 1 - a ∧ rd.2.subject = σ.memory.subject ∧ SameShape σ.memory rd.2 ∧
+    (WF σ.memory → NoReadSubs σ.memory a b →
+      rd.1 = (addrRange a b).map (fun x => σ.memory.subject (phys σ.memory.physMask x)) ∧ rd.2 = σ.memory) ∧
+    (∀ v, octets dev16 v = [v / 256 % 256, v % 256]) ∧ (∀ v, 0 ≤ v → v < 256 → octets dev8 v = [v]) := by
+  intro rd
+  obtain ⟨s1, s2, s3, s4, s5, s6, s7⟩ := C16.save_exact reply d P σ.memory s e a b hs he hab
+  refine ⟨?_, ?_, s2, s3, s4, s5, s6, s7⟩
+  · intro ho
+    rw [do_save_eq, hsp]
+    simp only [s1, saveEnd, ho]
+    rfl
+  · intro err ho
+    rw [do_save_eq, hsp]
+    simp only [s1, saveEnd, ho]
+    rfl
+
+/-- non-vacuity, running the GENERATED `do_save`: `save out.bin 10 12` on a 6502 memory holding
+`k mod 251` writes the file [16, 17, 18]; on the 65Org16 `save out.bin 3fffe 40001` -- across the
+physical top -- writes all four cells as eight octets; a directory that does not exist: error line,
+no file; `save x 10` is a syntax error. -/
+example :
+    observe [] (MonMemGen.do_save w0 monReply dev8 P8 "out.bin 10 12".toList (σ8 fun k => k % 251)) =
+      some (["Saved +3 bytes to out.bin".toList], [("out.bin".toList, [16, 17, 18])], []) ∧
+    observe [] (MonMemGen.do_save w0 monReply dev16 P16 "out.bin 3fffe 40001".toList (σ16 fun k => k % 251)) =
+      some (["Saved +4 bytes to out.bin".toList], [("out.bin".toList, [0, 98, 0, 99, 0, 0, 0, 1])], []) ∧
+    observe [] (MonMemGen.do_save w0 monReply dev8 P8 "/nodir/x 10 12".toList (σ8 fun k => k % 251)) =
+      some (["Cannot save file: [2] No such file or directory".toList], [], []) ∧
+    observe [] (MonMemGen.do_save w0 monReply dev8 P8 "x 10".toList (σ8 fun k => k % 251)) =
+      some (["Syntax error: x 10".toList], [], []) := by
+  decide +kernel
+
+/-- `save_load_roundtrip` for the generated `do_save` and `do_load`: the file that `save <name> s e`
+wrote from the memory of `σ`, when it is what `load <name2> t` then reads (`t` spelling the same start
+address) into ANY monitor state `σ2` with a memory of the same physical size, puts back exactly the
+saved values into the cells of `a … b`, touches no other cell, and reports "Wrote +(b-a+1) bytes from
+$a to $b".  Hypotheses as in `C16.save_load_roundtrip`: the range is not longer than the physical
+memory and the saved values are bytes of the device; no restriction on where the range lies. -/
+theorem save_load_roundtrip (w : World) (reply : Reply) (d : Dev) (P : Parser) (fuel : Nat) (σ σ2 : MemSt)
+    (sargs largs name name2 s e t : Str) (a b : Int)
+    (hd : d = dev8 ∨ d = dev16) (hwf : P.WF) (hP : P.maxaddr = d.addrMask)
+    (hw : WF σ.memory) (hw2 : WF σ2.memory) (hq2 : WQuiet reply σ2.memory)
+    (hpm : σ2.memory.physMask = σ.memory.physMask)
+    (hss : MonCmd.shlexSplit sargs = some [name, s, e]) (hls : MonCmd.shlexSplit largs = some [name2, t])
+    (hs : numberL P s = .ok a) (he : numberL P e = .ok b) (ht : numberL P t = .ok a) (htop : t ≠ "top".toList)
+    (hab : a ≤ b) (hwin : b - a ≤ σ.memory.physMask)
+    (hvals : ∀ v ∈ (getMany reply (addrRange a b) σ.memory).1, 0 ≤ v ∧ v ≤ d.byteMask)
+    (hopen : w.openW name = none) :
+    let vals := (getMany reply (addrRange a b) σ.memory).1
+    ∃ file m1,
+      MonMemGen.do_save w reply d P sargs σ =
+        .ok () { σ with memory := m1, files := σ.files ++ [(name, file)], out := σ.out ++ [savedLine vals.length name] } ∧
+      (loadSource w name2 = .ok file → file.length < fuel →
+        ∃ m', MonMemGen.do_load w reply d P fuel largs σ2 =
+            .ok () { σ2 with memory := m', out := σ2.out ++ [wroteLine d (b - a + 1) a b] } ∧
+          (∀ i : Nat, a + i ≤ b → m'.subject (phys σ.memory.physMask (a + i)) = vals.getD i 0) ∧
+          (∀ k, (∀ i : Nat, a + i ≤ b → phys σ.memory.physMask (a + i) ≠ k) → m'.subject k = σ2.memory.subject k) ∧
+          (NoReadSubs σ.memory a b → ∀ i : Nat, a + i ≤ b →
+            m'.subject (phys σ.memory.physMask (a + i)) = σ.memory.subject (phys σ.memory.physMask (a + i)))) := by
+  intro vals
+  obtain ⟨file, hsv, hld⟩ := C16.save_load_roundtrip reply d P σ.memory σ2.memory s e t a b σ2.pc hd hwf hP hw hw2 hq2
+    hpm hs he ht htop hab hwin hvals
+  have hBW : 8 ≤ d.BW := by rcases hd with rfl | rfl <;> decide
+  cases hds : doSave reply d P [s, e] σ.memory with
+  | mk o m1 =>
+    rw [hds] at hsv
+    simp only at hsv
+    subst hsv
+    refine ⟨file, m1, ?_, ?_⟩
+    · rw [do_save_eq, hss]
+      simp only [hds, saveEnd, hopen, vals]
+    · intro hsrc hlen
+      have hfuel : ∀ nm rest file', MonCmd.shlexSplit largs = some (nm :: rest) → loadSource w nm = .ok file' →
+          file'.length < fuel := by
+        intro nm rest file' h1 h2
+        rw [hls] at h1
+        injection h1 with h1
+        injection h1 with h1 _
+        subst h1
+        rw [hsrc] at h2
+        injection h2 with h2
+        rw [← h2]; exact hlen
+      have h2 : ¬ (2 ≤ ([t] : List Str).length) := by simp
+      obtain ⟨l1, l2, l3, l4⟩ := hld
+      cases hdl : doLoad reply d P file [t] σ2.pc σ2.memory with
+      | mk o2 m' =>
+        rw [hdl] at l1 l2 l3 l4
+        simp only at l1 l2 l3 l4
+        subst l1
+        refine ⟨m', ?_, l2, l3, l4⟩
+        rw [do_load_eq w reply d P fuel largs σ2 hBW hfuel, hls]
+        simp only [h2, if_false, hsrc, hdl, loadEnd]
+
+/-- non-vacuity, running both GENERATED commands: save $10..$12 of a memory holding `k mod 251` gives
+the file [16, 17, 18]; in a world where `f.bin` holds those octets `load f.bin 10` into an all-zero
+memory puts the three cells back and leaves the neighbours 0. -/
+example :
+    let w1 : World := { w0 with openR := fun _ => .ok [16, 17, 18] }
+    observe [] (MonMemGen.do_save w1 monReply dev8 P8 "f.bin 10 12".toList (σ8 fun k => k % 251)) =
+      some (["Saved +3 bytes to f.bin".toList], [("f.bin".toList, [16, 17, 18])], []) ∧
+    observe [0xf, 0x10, 0x11, 0x12, 0x13] (MonMemGen.do_load w1 monReply dev8 P8 100 "f.bin 10".toList (σ8 fun _ => 0)) =
+      some (["Wrote +3 bytes from $0010 to $0012".toList], [], [0, 16, 17, 18, 0]) := by
+  decide +kernel
+
+/-- `mem_exact` for the generated `do_mem`: for EVERY width setting `self._width ≥ 0`, `mem <r>` with
+a token spelling `a ≤ b` ends normally having printed lines that, read back (`int(x, 16)` of the text
+before the colon and of every blank-separated word after it), give groups whose bytes, concatenated
+in order, are exactly the values a read of `a, a+1, …, b` returns (`b + 1 - a` of them, nothing
+dropped or repeated at a line break), every line labelled with the address of its first byte; the
+cells are untouched. -/
+theorem mem_exact (w : World) (reply : Reply) (d : Dev) (P : Parser) (σ : MemSt) (args r : Str) (a b : Int)
+    (hwf : P.WF) (hsp : MonCmd.shlexSplit args = some [r]) (hr : rangeL P r = .ok a b) (hwd : 0 ≤ σ.width)
+    (hvals : ∀ v ∈ (getMany reply (addrRange a b) σ.memory).1, 0 ≤ v) :
+    let rd := getMany reply (addrRange a b) σ.memory
+    ∃ groups : List (Int × List Int),
+      MonMemGen.do_mem w reply d P args σ =
+        .ok () { σ with memory := rd.2, out := σ.out ++ groups.map fun g => mkLine d g.1 g.2 } ∧
+      parseMem (groups.map fun g => mkLine d g.1 g.2) = some groups ∧
+      groups.flatMap (·.2) = rd.1 ∧ (rd.1.length : Int) = b + 1 - a ∧
+      GroupsFrom a groups ∧ rd.2.subject = σ.memory.subject := by
+  intro rd
+  obtain ⟨groups, g1, g2, g3, g4, g5, g6⟩ := C16.mem_exact reply d P σ.memory σ.width.toNat r a b hwf hr hvals
+  refine ⟨groups, ?_, g2, g3, g4, g5, g6⟩
+  rw [do_mem_eq w reply d P args σ hwd, hsp]
+  simp only [g1, memEnd]
+  rfl
+
+/-- `mem_reads_cells` for the generated `do_mem`: where no read subscriber sits in the range (every
+range that avoids the getc register) the values it prints are the physical cells of `a … b`, and the
+monitor state -- the memory object with its call log included -- is unchanged but for the output. -/
+theorem mem_reads_cells (w : World) (reply : Reply) (d : Dev) (P : Parser) (σ : MemSt) (args r : Str) (a b : Int)
+    (hwf : P.WF) (hsp : MonCmd.shlexSplit args = some [r]) (hr : rangeL P r = .ok a b) (hwd : 0 ≤ σ.width)
+    (hw : WF σ.memory) (hn : NoReadSubs σ.memory a b)
+    (hcells : ∀ x, a ≤ x → x ≤ b → 0 ≤ σ.memory.subject (phys σ.memory.physMask x)) :
+    ∃ groups : List (Int × List Int),
+      MonMemGen.do_mem w reply d P args σ = .ok () { σ with out := σ.out ++ groups.map fun g => mkLine d g.1 g.2 } ∧
+      parseMem (groups.map fun g => mkLine d g.1 g.2) = some groups ∧
+      groups.flatMap (·.2) = (addrRange a b).map (fun x => σ.memory.subject (phys σ.memory.physMask x)) ∧
+      GroupsFrom a groups := by
+  obtain ⟨c1, c2⟩ := C16.mem_reads_cells reply σ.memory a b hw hn
+  have hvals : ∀ v ∈ (getMany reply (addrRange a b) σ.memory).1, 0 ≤ v := by
+    intro v hv
+    rw [c1] at hv
+    obtain ⟨x, hx, rfl⟩ := List.mem_map.mp hv
+    have := mem_addrRange hx
+    exact hcells x this.1 this.2
+  obtain ⟨groups, g1, g2, g3, _, g5, _⟩ := mem_exact w reply d P σ args r a b hwf hsp hr hwd hvals
+  refine ⟨groups, ?_, g2, by rw [g3, c1], g5⟩
+  rw [g1, c2]
+
+/-- non-vacuity, running the GENERATED `do_mem`: the 65Org16 at width 10 prints an address-only first
+line and then one word per line; the 6502 at width 10 one byte per line; `mem f003:f005` shows 00 for
+the getc register whatever its cell holds; `mem` alone prints the usage. -/
+example :
+    observe [] (MonMemGen.do_mem w0 monReply dev16 P16 "0:1".toList { σ16 (fun k => k + 256) with width := 10 }) =
+      some (["00000000:".toList, "00000000:  0100".toList, "00000001:  0101".toList], [], []) ∧
+    observe [] (MonMemGen.do_mem w0 monReply dev8 P8 "0:1".toList { σ8 (fun k => k + 1) with width := 10 }) =
+      some (["0000:  01".toList, "0001:  02".toList], [], []) ∧
+    observe [] (MonMemGen.do_mem w0 monReply dev8 P8 "f003:f005".toList (σ8 fun _ => 0x55)) =
+      some (["f003:  55  00  55".toList], [], []) ∧
+    (observe [] (MonMemGen.do_mem w0 monReply dev8 P8 "".toList (σ8 fun _ => 0))).map (·.1.length) = some 3 := by
+  decide +kernel
 
 end Py65.Props.C16g
